@@ -15,6 +15,8 @@ Definition check_case (c : case10) : report :=
   let v :=
     if negb (expected_load (t_file_kind c) (t_load c)) then VPredFail ("load_classifies/" ++ t_file_kind c ++ "/" ++ t_load c)
     else if t_well_formed c && negb (String.eqb (t_load c) "ok") then VPredFail "well_formed_loads"
+    (* the hand-written YAML shapes that are not a list of command entries (a wrong-typed value anywhere included) *)
+    else if String.eqb (t_file_kind c) "shape" && negb (t_well_formed c) && negb (String.eqb (t_load c) "parse") then VPredFail "undecodable_is_parse_error"
     else match find (fun k => l_panic k || l_hang k) (t_calls c) with
          | Some k => VPredFail ((if l_hang k then "hang/" else "panic/") ++ l_entry k)
          | None =>
